@@ -117,6 +117,13 @@ def oracle(run):
         for sig, detail in check_case(d, texts, marks):
             run.violate(sig, detail, {"desc": repr(d), "sources": texts})
     run.note("by-name meaning compared with compile() on %d descriptions" % len(cases))
+    # the name type the comparison "ignoring case and surrounding whitespace" rests on
+    run.case(("svs-algebra",), True, kind="name-normalisation")
+    seen = set()
+    for sig, detail in gen_desc.check_svs_algebra(run.rng, run.budget(3000, 60000)):
+        if sig not in seen:
+            seen.add(sig)
+            run.violate("C01:" + sig, detail, {"svs_algebra": True})
 
 
 def oracle_validity(run, check_recipes):
@@ -148,6 +155,12 @@ def replay_validity(r, check_recipes):
 
 def replay(run, obj):
     r = obj["replay"]
+    if r.get("svs_algebra"):
+        import random
+        res = gen_desc.check_svs_algebra(random.Random(0), 20000)
+        for x in res[:3]:
+            print(*x)
+        return bool(res)
     d = eval(r["desc"], {"Fraction": Fraction})
     # positions: re-derive marks by re-printing is impossible (random spelling); compare verdict and recipes only
     try:
